@@ -17,7 +17,7 @@ from ..binsmodel import fallback_predicate, bins_consts
 from ..builders import (interp_for, BoundQuery, where_conjuncts, normalise_filters, compare_filters,
                         coord_predicate, coord_vars, ft_options, limit_options, strand_options)
 from ..decide import find_counterexample
-from ..util import require_func, calls_in, kwarg, is_name
+from ..util import require_func, calls_in, kwarg, is_name, execute_sites, closure
 
 RENAME = {"F.seqid": "seqid", "F.start": "S", "F.end": "E"}
 
@@ -100,6 +100,12 @@ def cond_predicate(conds):
     ops = {"<": lambda a, b: a < b, "<=": lambda a, b: a <= b, ">": lambda a, b: a > b,
            ">=": lambda a, b: a >= b, "==": lambda a, b: a == b, "!=": lambda a, b: a != b}
     for c, outcome in conds:
+        if isinstance(c, ACond) and c.op == "in" and isinstance(c.right, tuple) and len(c.right) == 4 and c.right[0] == "range" and term(c.left) is not None:
+            # x in range(a, b, step)
+            l = term(c.left)
+            rg = range(c.right[1], c.right[2], c.right[3])
+            fs.append((lambda l=l, rg=rg, out=outcome: (lambda e: (l(e) in rg) == out))())
+            continue
         if not isinstance(c, ACond) or c.op not in ops:
             continue
         l, r = term(c.left), term(c.right)
@@ -344,47 +350,156 @@ def _pair_key(node):
 
 
 def _r3_bin_provenance(ctx):
+    """The stored bin is bins(start, end) of the very record it is stored with.
+    (a) Feature.astuple() evaluated on a feature that carries a stale bin: the bin element is what bins.bins returns for
+        (self.start, self.end) in single-bin mode, gff convention -- never the carried one;
+    (b) every other single-bin computation: value provenance of its two coordinates -- start and end of one record."""
+    from ..absint import Interp, Sym, Opaque, Unsupported
     proj = ctx.proj
     keys = ctx.folder.const("constants", "_keys")
     ctx.require("bin" in keys, "constants._keys lost its bin column")
     bi = keys.index("bin")
     at = require_func(ctx, "feature.Feature.astuple")
-    rets = [n for n in ast.walk(at.node) if isinstance(n, ast.Return) and isinstance(n.value, ast.Tuple)]
-    ctx.floor("R3", len(rets), 1, "tuple-returning paths of Feature.astuple")
-    for r in rets:
-        if len(r.value.elts) <= bi:
-            continue
-        e = r.value.elts[bi]
-        ok = isinstance(e, ast.Call) and isinstance(e.func, ast.Attribute) and e.func.attr == "calc_bin" \
-            and is_name(e.func.value, "self") and not e.args and not e.keywords
-        ctx.ob("R3", ok, "the bin written to the database is recomputed (self.calc_bin()) from the current start/end",
-               node=r, func=at, sig="astuple bin element: %s" % ctx.norm(e))
+    calls = []
+
+    def s_bins(i, pos, kw, node):
+        calls.append((list(pos), dict(kw)))
+        return Sym("BIN#%d" % len(calls), "int", True)
+    for enc in (None,):
+        it = Interp(ctx)
+        it.summaries["bins.bins"] = s_bins
+        it.summaries["helpers._jsonify"] = lambda i, pos, kw, node: Sym("json", "str", True)
+        me = Opaque("F", "Feature")
+        for k in keys:
+            me.attrs[k] = Sym(k, "int" if k in ("start", "end") else "str", True)
+        me.attrs["bin"] = Sym("STALE", "int", True)
+        me.attrs["attributes"] = Sym("attributes", "any", True)
+        me.attrs["extra"] = []
+        del calls[:]
+        try:
+            traces = it.run(at, {}, self_obj=me)
+        except Unsupported as e:
+            ctx.require(False, "Feature.astuple outside the analysable subset: %s" % e)
+        n_ok = 0
+        for t in traces:
+            res = t.result[1] if t.result[0] == "return" else None
+            if not (isinstance(res, (tuple, list)) and len(res) == len(keys)):
+                ctx.ob("R3", False, "astuple returns the %d columns" % len(keys), func=at, sig="astuple returns %s" % (type(res).__name__ if res is not None else t.result[:2],))
+                continue
+            b = res[bi]
+            name = getattr(b, "name", repr(b))
+            last = calls[-1] if calls else None
+            nm = lambda v: getattr(v, "name", v)
+            good_call = last is not None and [nm(x) for x in last[0][:2]] == ["start", "end"] and len(last[0]) == 2 \
+                and last[1].get("one", True) is True and last[1].get("fmt", "gff") == "gff" and set(last[1]) <= {"one", "fmt"}
+            ok = isinstance(b, Sym) and name.startswith("BIN#") and good_call
+            n_ok += ok
+            ctx.ob("R3", ok, "the bin written to the database is recomputed from the current start/end: bins.bins(self.start, self.end, one=True) -- not a bin the feature carries",
+                   func=at, sig="astuple bin element: %s" % ("bins(start, end)" if ok else ("the carried bin" if name == "STALE" else "%s via bins%s" % (name, ([nm(x) for x in last[0]], last[1]) if last else "()"))))
+        ctx.floor("R3", len(traces), 1, "paths of Feature.astuple")
+    # ---- (b)
+    from ..flow import Flow, show
+    _ROWCOLS.clear()
+    for site in execute_sites(ctx):
+        if site.stmts and site.stmts[0].verb == "SELECT":
+            key = ("row", (site.func.qual, site.call.lineno, site.call.col_offset))
+            for i_, (e_, _alias) in enumerate(site.stmts[0].cols):
+                inner = e_[2][0] if (e_[0] == "call" and e_[1] in ("min", "max") and len(e_[2]) == 1) else e_
+                col = inner[2].lower() if inner[0] == "col" else None
+                agg = e_[1] if e_[0] == "call" else None
+                _ROWCOLS[(key, i_)] = "start" if (col == "start" and agg in (None, "min")) else "end" if (col in ("end", "stop") and agg in (None, "max")) else "other"
     cb = require_func(ctx, "feature.Feature.calc_bin")
-    bcalls = [c for c in calls_in(cb.node) if proj.resolve_call(c, cb)[1] == "bins.bins"]
-    ctx.floor("R3", len(bcalls), 1, "bins.bins calls in Feature.calc_bin")
-    for c in bcalls:
-        ok = len(c.args) >= 2 and ast.unparse(c.args[0]) == "self.start" and ast.unparse(c.args[1]) in ("self.end", "self.stop")
-        one = kwarg(c, "one")
-        ok_one = one is None or (isinstance(one, ast.Constant) and one.value is True)
-        ok_fmt = kwarg(c, "fmt") is None or (isinstance(kwarg(c, "fmt"), ast.Constant) and kwarg(c, "fmt").value == "gff")
-        ctx.ob("R3", ok and ok_one and ok_fmt and len(c.args) == 2, "calc_bin computes bins.bins(self.start, self.end, one=True)",
-               node=c, func=cb, sig="calc_bin: %s" % ctx.norm(c))
-    # every other single-bin computation pairs the same feature's start and end
     n = 0
     for f in proj.funcs.values():
-        if f.module.name in ("bins",):
+        if f.module.name in ("bins",) or f is cb:
             continue
         for c in calls_in(f.node):
-            if proj.resolve_call(c, f)[1] != "bins.bins" or f is cb:
+            if proj.resolve_call(c, f)[1] != "bins.bins":
                 continue
             one = kwarg(c, "one")
             if isinstance(one, ast.Constant) and one.value is False:
                 continue
             n += 1
-            ka = _pair_key(c.args[0]) if len(c.args) > 0 else None
-            kb = _pair_key(c.args[1]) if len(c.args) > 1 else None
-            ok = ka is not None and kb is not None and ka[0] == kb[0] and ka[1] == "start" and kb[1] == "end" and len(c.args) == 2
-            ok_fmt = kwarg(c, "fmt") is None
-            ctx.ob("R3", ok and ok_fmt, "a stored bin is bins(<x>.start, <x>.end) of one and the same feature, gff convention",
-                   node=c, func=f, sig="%s: %s" % (f.name, ctx.norm(c)))
-    ctx.floor("R3", n, 3, "single-bin computations outside Feature.calc_bin")
+            fl = Flow(ctx, [g for g in proj.funcs.values()], rows=True)
+            args = list(c.args)
+            if len(args) == 1 and isinstance(args[0], ast.Starred):
+                ts = fl.terms(args[0].value, f)
+                pairs = [(t_[2], t_[3]) for t_ in ts if isinstance(t_, tuple) and t_[0] == "op" and t_[1] in ("tuple", "list") and len(t_) == 4]
+                ok = bool(pairs) and len(pairs) == len(ts) and all(_same_record(a_, b_) for a_, b_ in pairs)
+                shown = ", ".join(sorted(show(t_) for t_ in ts))
+            elif len(args) == 2:
+                ta, tb = fl.terms(args[0], f), fl.terms(args[1], f)
+                ok = bool(ta) and bool(tb) and all(any(_same_record(a_, b_) for b_ in tb) for a_ in ta) and all(any(_same_record(a_, b_) for a_ in ta) for b_ in tb)
+                shown = "%s ; %s" % (", ".join(sorted(show(t_) for t_ in ta)), ", ".join(sorted(show(t_) for t_ in tb)))
+            else:
+                ok, shown = False, ctx.norm(c)
+            ok_fmt = kwarg(c, "fmt") is None or (isinstance(kwarg(c, "fmt"), ast.Constant) and kwarg(c, "fmt").value == "gff")
+            how = "start, end of one record"
+            if not ok:
+                # provenance undecided: evaluate instead -- the gap scenarios when the site serves interfeatures, else the
+                # function itself on a record {start: S, end: E}
+                inter = proj.func("interface.FeatureDB.interfeatures")
+                root = f
+                while getattr(root, "parent", None) is not None:
+                    root = root.parent
+                if inter is not None and (root is inter or f in closure(ctx, inter)):
+                    from .c15 import gap_bin_obligation
+                    n0 = len(ctx.obs)
+                    gap_bin_obligation(ctx, rule="R3")
+                    ok = all(o.ok for o in ctx.obs[n0:])
+                    del ctx.obs[n0:]
+                    how = "the gap's own start, end (evaluated on two scenarios)"
+                else:
+                    ok = _record_evaluation(ctx, f)
+                    how = "start, end of the record it is given (evaluated)"
+            ctx.ob("R3", ok and ok_fmt, "a stored bin is bins(start, end) of one and the same record, gff convention (value provenance of the two coordinates, else evaluation)",
+                   node=c, func=f, sig="%s: bins(%s)" % (f.name, how if ok else shown[:160]))
+    ctx.floor("R3", n, 1, "single-bin computations outside Feature.calc_bin")
+
+
+def _record_evaluation(ctx, f):
+    """f(record) evaluated for a mapping {start: S, end: E, ...}: every bins.bins call receives exactly (S, E), single-bin mode."""
+    from ..absint import Interp, Sym, Unsupported
+    params = [p for p in f.params if p not in ("self", "cls")]
+    if len(params) != 1:
+        return False
+    calls = []
+    it = Interp(ctx)
+    it.summaries["bins.bins"] = lambda i, pos, kw, node: (calls.append((list(pos), dict(kw))), Sym("BIN", "int", True))[1]
+    rec = {"start": Sym("S", "int", True), "end": Sym("E", "int", True), "seqid": "chr1", "strand": "+", "featuretype": "gene"}
+    try:
+        traces = it.run(f, {params[0]: rec})
+    except Unsupported:
+        return False
+    nm = lambda v: getattr(v, "name", v)
+    return bool(calls) and all([nm(x) for x in pos] == ["S", "E"] and kw.get("one", True) is True and kw.get("fmt", "gff") == "gff" for pos, kw in calls) \
+        and all(t.result[0] == "return" and nm(t.result[1]) == "BIN" for t in traces)
+
+
+def _strip_int(t):
+    while isinstance(t, tuple) and t and t[0] == "call" and t[1] in ("int", "builtins.int") and len(t) >= 4 and len(t[3]) == 1:
+        t = t[3][0]
+    return t
+
+
+def _same_record(a, b):
+    """Are the provenance terms a, b the start and the end of one record?"""
+    a, b = _strip_int(a), _strip_int(b)
+    if not (isinstance(a, tuple) and isinstance(b, tuple)) or a[0] != b[0]:
+        return False
+    if a[0] == "attr":
+        return a[1] == b[1] and a[2] == "start" and b[2] in ("end", "stop")
+    if a[0] in ("item", "key"):
+        ka, kb = a[2], b[2]
+        ka = ka[1] if isinstance(ka, tuple) and ka[0] == "const" else ka
+        kb = kb[1] if isinstance(kb, tuple) and kb[0] == "const" else kb
+        return a[1] == b[1] and ka == "start" and kb in ("end", "stop")
+    if a[0] == "pos":
+        # columns of one result row: judged by the SELECT list of that row's statement (MIN(start) / MAX(end), start / end)
+        return a[1] == b[1] and isinstance(a[2], int) and isinstance(b[2], int) and a[2] != b[2] and _ROWCOLS.get((a[1], a[2])) == "start" and _ROWCOLS.get((b[1], b[2])) == "end"
+    if a[0] in ("alt",):
+        return False
+    return False
+
+
+_ROWCOLS = {}
